@@ -25,11 +25,19 @@ import (
 	"bbsim/instr"
 )
 
-const (
-	verifDir = "/verif"
-	repoDir  = "/repo"
-	goBin    = "go1.26.8"
+var (
+	verifDir = envOr("BBSIM_VERIF", "/verif")
+	repoDir  = envOr("BBSIM_REPO", "/repo")
 )
+
+const goBin = "go1.26.8"
+
+func envOr(k, d string) string {
+	if v := os.Getenv(k); v != "" {
+		return v
+	}
+	return d
+}
 
 type tierCfg struct {
 	runs  int
@@ -252,7 +260,7 @@ func cmdCheck(args []string) int {
 			defer wg.Done()
 			cmd := exec.Command(bin, "-test.run", "^TestWorker$", "-test.timeout", "0", "-test.cpu", "1",
 				"-prop", *prop, "-seed", strconv.FormatUint(seed, 10), "-from", strconv.Itoa(w), "-stride", strconv.Itoa(W),
-				"-count", strconv.Itoa(per), "-wall", fmt.Sprint(tc.wallS), "-out", outs[w])
+				"-count", strconv.Itoa(per), "-wall", fmt.Sprint(tc.wallS), "-out", outs[w], "-replaydir", filepath.Join(verifDir, "replays"))
 			cmd.Env = append(os.Environ(), "GOMAXPROCS=2", "GORACE=halt_on_error=0 log_path="+filepath.Join(scratch, fmt.Sprintf("race.%d", w)))
 			// watchdog: a worker that outlives its wall cap by far is infrastructure trouble
 			done := make(chan struct{})
@@ -542,13 +550,13 @@ func writeEvidence(prop, tier string, seed int64, t summary, distinct, violation
 		"top_switch_site_pairs":        topN(t.SwitchPairs, 12),
 		"real_vs_stub": map[string]string{
 			"go-bigbuff (working tree, non-test files)": "real code, instrumented by the generic source pass",
-			"context":                                   "real Go 1.26.8 context.go, same pass",
-			"channels, select blocking, reflect, maps":  "real runtime inside one testing/synctest bubble",
-			"sync.Mutex/RWMutex/Cond/Once/WaitGroup":    "stub: ports of the documented algorithms on simulator wait-sets",
-			"sync/atomic":                               "scheduling point + the real atomic",
-			"time":                                      "stub: discrete-event clock",
-			"math/rand":                                 "stub: schedule choice stream",
-			"goroutine scheduler":                       "stub: seeded scheduler, one task at a time",
+			"context": "real Go 1.26.8 context.go, same pass",
+			"channels, select blocking, reflect, maps": "real runtime inside one testing/synctest bubble",
+			"sync.Mutex/RWMutex/Cond/Once/WaitGroup":   "stub: ports of the documented algorithms on simulator wait-sets",
+			"sync/atomic":                              "scheduling point + the real atomic",
+			"time":                                     "stub: discrete-event clock",
+			"math/rand":                                "stub: schedule choice stream",
+			"goroutine scheduler":                      "stub: seeded scheduler, one task at a time",
 		},
 	}
 	ev := map[string]any{
